@@ -34,14 +34,27 @@ func (s *vfC28Mem) Close()                              {}
 func (s *vfC28Mem) Size() (uint32, error)               { return uint32(len(s.data)), nil }
 func (s *vfC28Mem) Read(off, sz uint32) ([]byte, error) { return s.data[off : off+sz], nil }
 
-var vfC28Words = []string{"foo", "Foo", "FOO", "bar", "baz", "ab", "abc", "aab", "aaa", "x", "func", "main", "return", "k", "K", "K",
-	"s", "ſ", "straße", "STRASSE", "ẞ", "é", "É", "σας", "ΣΑΣ", "ς", "世界", "😀", "x_1", "a1", "__", "0", "42", "ǆ", "ǅ", "İ", "ı", "i"}
+var vfC28Words = []string{"foo", "Foo", "FOO", "bar", "baz", "ab", "abc", "aab", "aaa", "x", "func", "main", "return", "k", "K", "\u212a",
+	"s", "\u017f", "stra\u00dfe", "STRASSE", "\u1e9e", "\u00e9", "\u00c9", "\u03c3\u03b1\u03c2", "\u03a3\u0391\u03a3", "\u03c2", "\u4e16\u754c", "\U0001f600", "x_1", "a1", "__", "0", "42", "\u01c6", "\u01c5", "\u0130", "\u0131", "i"}
 var vfC28Seps = []string{" ", " ", " ", "\n", "\n", "\t", ".", ",", "(", ")", "-", "  ", "\n\n", ";", ""}
 
-func vfC28Doc(r *vfRand, size int) []byte {
+// valid UTF-8 that is unusual in source files but legal: U+FFFD (a correctly encoded replacement character, as left by a
+// lossy transcoding), BOM, line/paragraph separators, noncharacters, the last code point, the code points around the
+// surrogate gap, NUL-free control characters, combining marks, zero-width and no-break spaces, CR line ends; alone and
+// glued before / after / inside words that the generated patterns match
+var vfC28Special = []string{"\ufffd", "\ufffd", "J\ufffdrgen", "\ufffdfoo", "foo\ufffd", "fo\ufffdo", "bar\ufffdbaz", "\ufffd\ufffd",
+	"\ufeff", "\ufefffoo", "\u2028", "\u2029", "ab\u2028abc", "\ufffe", "\uffff", "x\uffffx", "\U0010ffff", "aaa\U0010ffff", "\U00010000",
+	"\ud7ff", "\ue000", "\x01", "\x1f", "\x7f", "a\x7fb", "\u0085", "\u00a0", "e\u0301", "\u200b", "k\u200bK", "\r\n", "\r", "\v", "\f", "\U000e0001"}
+
+// specialPct: share of words taken from vfC28Special (0 = the plain generator)
+func vfC28Doc(r *vfRand, size int, specialPct int) []byte {
 	var b bytes.Buffer
 	for b.Len() < size {
-		b.WriteString(r.Pick(vfC28Words))
+		if r.Chance(specialPct) {
+			b.WriteString(r.Pick(vfC28Special))
+		} else {
+			b.WriteString(r.Pick(vfC28Words))
+		}
 		b.WriteString(r.Pick(vfC28Seps))
 	}
 	return b.Bytes()
@@ -49,7 +62,9 @@ func vfC28Doc(r *vfRand, size int) []byte {
 
 var vfC28Atoms = []string{"foo", "bar", "ab", "a", "k", "K", "s", "ß", "σ", "ς", "é", "世", "x_1", "ǆ", "i", "İ",
 	`\w`, `\W`, `\d`, `\s`, `\S`, `.`, `[a-c]`, `[^a-c]`, `[A-Z]`, `[a-zé]`, `[^\n]`, `[k-l]`, `[σς]`, `\pL`, `\p{Greek}`, `[[:alpha:]]`, `[[:^alpha:]]`, `[\s\S]`, `\x{1F600}`,
-	`\b`, `\B`, `^`, `$`, `\A`, `\z`, `(?:)`, ``}
+	`\b`, `\B`, `^`, `$`, `\A`, `\z`, `(?:)`, ``,
+	`\x{FFFD}`, "\ufffd", `[^\x{FFFD}]`, `\x{FEFF}`, `\x{2028}`, `[\x{FFFE}\x{FFFF}]`, `\x{10FFFF}`, `[\x{E000}-\x{10FFFF}]`, `\pC`, `\p{Cf}`, `\PL`, `[^\pL\s]`,
+	`[[:cntrl:]]`, `[[:space:]]`, `\x01`, `\x7f`, `\pM`, `\pZ`, `[^\x00-\x7F]`, `\r`}
 
 func vfC28Pattern(r *vfRand, depth int) string {
 	k := r.Intn(100)
@@ -162,10 +177,12 @@ func vfC28RunOne(d *indexData, contents [][]byte, c int, id int, p string, cs bo
 		}
 		return vfC28Canon(sr.Files)
 	}()
-	// classification aid (independent of the setting): which engine, run directly on the documents, deviates from Go's
-	// standard engine, and does RE2 report a match boundary inside a UTF-8 sequence?
-	grafanaEqStd, re2EqStd, re2InsideRune := true, true, false
-	if se, err2 := stdregexp.Compile(compiled); err2 == nil {
+	// classification aid (independent of the setting, so only the process started with VERIF_C28_CLASSIFY=1 computes it):
+	// which engine, run directly on the documents, deviates from Go's standard engine, and does RE2 report a match
+	// boundary inside a UTF-8 sequence?
+	grafanaEqStd, re2EqStd, re2InsideRune, classified := true, true, false, false
+	if se, err2 := stdregexp.Compile(compiled); err2 == nil && os.Getenv("VERIF_C28_CLASSIFY") == "1" {
+		classified = true
 		ge, err1 := regexp.Compile(compiled)
 		re, err3 := re2regexp.Compile(compiled)
 		for _, content := range contents {
@@ -192,7 +209,7 @@ func vfC28RunOne(d *indexData, contents [][]byte, c int, id int, p string, cs bo
 	}
 	vfEmit(map[string]any{"kind": "c28res", "id": fmt.Sprintf("%d/%d", c, id), "corpus": c, "pattern": p, "case_sensitive": cs, "compiled": compiled,
 		"setting": setting, "result": res, "nontrivial": res != "" && !strings.HasPrefix(res, "PANIC") && !strings.HasPrefix(res, "ERROR"),
-		"grafana_eq_std": grafanaEqStd, "re2_eq_std": re2EqStd, "re2_inside_rune": re2InsideRune, "mixed_fold_rune": vfC28MixedFold(compiled), "kindq": fmt.Sprintf("%T", q)})
+		"classified": classified, "grafana_eq_std": grafanaEqStd, "re2_eq_std": re2EqStd, "re2_inside_rune": re2InsideRune, "mixed_fold_rune": vfC28MixedFold(compiled), "kindq": fmt.Sprintf("%T", q)})
 }
 
 func TestVerifC28(t *testing.T) {
@@ -230,10 +247,14 @@ func TestVerifC28(t *testing.T) {
 	}
 	nq := vfN(240)
 	ncorp := 6
-	fixed := []string{`(?i)k`, `k`, `a*`, `\b`, `(?i)straße`, `(?i)s`, `x*`, `(?:a|ab)(?:c|bcd)?`, `(?i)[k-l]+`, `\bfoo\b`, `^`, `$`, `[^a]*`, `(?i)σας`, `.*`, `(?s).*`, `\pL+`, `世.`, `(?i)ǆ`, `a+?`, `(?U)a+`, `\s+`, `(?m)^\w+`, `\w+$`, `(?i)İ`, `[[:^alpha:]]+`}
+	fixed := []string{`(?i)k`, `k`, `a*`, `\b`, `(?i)stra\x{DF}e`, `(?i)s`, `x*`, `(?:a|ab)(?:c|bcd)?`, `(?i)[k-l]+`, `\bfoo\b`, `^`, `$`, `[^a]*`, `(?i)\x{3C3}\x{3B1}\x{3C2}`, `.*`, `(?s).*`, `\pL+`, `\x{4E16}.`, `(?i)\x{1C6}`, `a+?`, `(?U)a+`, `\s+`, `(?m)^\w+`, `\w+$`, `(?i)\x{130}`, `[[:^alpha:]]+`,
+		`foo`, `ba[rz]`, `\x{FFFD}+`, `[^\x{FFFD}\n]+`, `\w+\(`, `(?i)FOO\W`, `\pC+`, `[^\n]+`, `(?m)^.`, `(?m).$`, `\S+`, `[\x{2028}\x{2029}]`, `ab+c?`, `.\x{10FFFF}`, `\x{FEFF}\w+`}
 	id := 0
 	for c := 0; c < ncorp; c++ {
-		sizes := []int{0, 5 + r.Intn(20), 60 + r.Intn(8), 100 + r.Intn(200), 1500 + r.Intn(2000), 4090 + r.Intn(12), 5000 + r.Intn(3000)}
+		// sizes straddle the fixed thresholds 1 / 64 / 4096; every corpus has plain documents and documents with special
+		// (valid) code points, small and large, so that for every threshold above the largest document each of them is
+		// searched by the grafana engine while the go-re2 program exists
+		sizes := []int{0, 5 + r.Intn(20), 30 + r.Intn(30), 60 + r.Intn(8), 100 + r.Intn(200), 300 + r.Intn(600), 1500 + r.Intn(2000), 4090 + r.Intn(12), 5000 + r.Intn(3000)}
 		b, err := NewShardBuilder(&zoekt.Repository{Name: "r"})
 		if err != nil {
 			t.Fatal(err)
@@ -241,7 +262,8 @@ func TestVerifC28(t *testing.T) {
 		var docs []map[string]any
 		var contents [][]byte
 		for i, sz := range sizes {
-			content := vfC28Doc(r, sz)
+			pct := []int{0, 12, 35, 0, 12, 60}[(i+c)%6]
+			content := vfC28Doc(r, sz, pct)
 			if !utf8.Valid(content) {
 				t.Fatal("generator produced invalid UTF-8")
 			}
@@ -249,7 +271,7 @@ func TestVerifC28(t *testing.T) {
 			if err := b.Add(Document{Name: name, Content: content}); err != nil {
 				t.Fatal(err)
 			}
-			docs = append(docs, map[string]any{"name": name, "bytes": len(content), "content": string(content)})
+			docs = append(docs, map[string]any{"name": name, "bytes": len(content), "content": string(content), "special_pct": pct})
 			contents = append(contents, content)
 		}
 		var buf bytes.Buffer
@@ -264,8 +286,8 @@ func TestVerifC28(t *testing.T) {
 		vfEmit(map[string]any{"kind": "c28corpus", "corpus": c, "docs": docs})
 		for k := 0; k < nq/ncorp; k++ {
 			var p string
-			if k < len(fixed) && c < 2 {
-				p = fixed[(k+c*13)%len(fixed)]
+			if half := (len(fixed) + 1) / 2; k < half && c < 2 {
+				p = fixed[(k+c*half)%len(fixed)]
 			} else {
 				p = vfC28Pattern(r, 1+r.Intn(3))
 			}
